@@ -241,7 +241,7 @@ def run_shard(ctx, spec):
 
     acc = Acc()
     strat = st.tuples(
-        G.envelope_s(depth=spec["depth"], risky=spec["risky"], small=True),
+        G.envelope_s(depth=spec["depth"], risky=spec["risky"], small=True, max_auth=3 if spec["i"] % 2 else 2),
         st.sampled_from(TRANSFORMS),
         st.integers(0, 1000),
     ).map(lambda t: {"desc": t[0], "transform": t[1], "sel": t[2]})
